@@ -408,7 +408,8 @@ def run_job(job: Job, meta, workdir: Path):
     t0 = time.time()
     try:
         goto = prep_goto(meta, workdir)
-        loops = show_loops(goto)
+        # loop names are only needed to resolve per-loop bounds (cbmc --show-loops re-processes the whole program: minutes on large harnesses)
+        loops = show_loops(goto) if (job.unwindset or os.environ.get("VERIF_SHOW_LOOPS")) else []
         if os.environ.get("VERIF_SHOW_LOOPS"):
             (workdir / f"{job.harness}.loops.txt").write_text("\n".join(loops))
         args, bounds, unwind = cbmc_args(job, meta, loops)
@@ -487,7 +488,7 @@ def run_job(job: Job, meta, workdir: Path):
 def trace_for(job: Job, meta, workdir: Path, pid):
     """second, narrowed run: counterexample trace for one failed property"""
     goto = str(workdir / (Path(meta["goto_file"]).name.replace(".symtab.out", "") + ".goto"))
-    loops = show_loops(goto)
+    loops = show_loops(goto) if job.unwindset else []
     args, _, _ = cbmc_args(job, meta, loops)
     # like Kani's concrete playback: no formula slicing, so that every nondet value shows up in the trace
     args = [a for a in args if a != "--slice-formula"]
